@@ -110,6 +110,7 @@ type Exec struct {
 	symOnly bool
 	preemptBound int
 	buffers map[string]*Term
+	bufAliases map[string][]*BytesV
 	fullTimeout int
 	freshRetries int
 }
